@@ -28,6 +28,7 @@ structure Inv (o : Opts T) (s : St T) : Prop where
   interp : s.scs ≠ .finalReturned → s.useInterp = true → s.tPrev ≤ s.tInterp ∧ s.tInterp ≤ s.tAdv
   retNoEv : s.scs = .returnedNoEvent → s.useInterp = false
   startci : s.startCI = true → s.useInterp = false
+  interp_hi : s.useInterp = true → s.tInterp ≤ s.tAdv
 
 /-- what holds at the head of the main stepping loop; `t0` = `getTime()` and `a0` = advanced time when
 `stepTo` was entered -/
@@ -79,7 +80,7 @@ namespace C19
 variable {T : Type} [LinearOrder T]
 
 macro "crunch" : tactic => `(tactic| (simp_all [St.time] <;> (try (first | order | (refine ⟨?_, ?_⟩ <;> order) | (intros; order) | (apply min_cases_eq; first | (left; constructor <;> order) | (right; constructor <;> order)) | grind))))
-macro "post_split" : tactic => `(tactic| refine ⟨⟨?_, ?_, ?_, ?_, ?_, ?_, ?_⟩, ?_, ?_, ?_, ?_, ?_, ?_, ?_, ?_, ?_, ?_, ?_, ?_, ?_⟩)
+macro "post_split" : tactic => `(tactic| refine ⟨⟨?_, ?_, ?_, ?_, ?_, ?_, ?_, ?_⟩, ?_, ?_, ?_, ?_, ?_, ?_, ?_, ?_, ?_, ?_, ?_, ?_, ?_⟩)
 macro "ret_case" e:term : tactic =>
   `(tactic| first | (injection $e with e1 e2; subst e1; subst e2; post_split <;> crunch) | (cases $e:term))
 
@@ -333,7 +334,7 @@ structure Legal (report sched : T) (s : St T) : Prop where
 
 theorem head_of_inv {o : Opts T} {report sched : T} {s : St T} (hi : Inv o s) (hl : Legal report sched s)
     (hn : s.startCI = false) (hf : s.scs ≠ .finalReturned) : Head o report sched s.time s.tAdv s := by
-  obtain ⟨i1, i2, i3, i4, i5, i6, i7⟩ := hi
+  obtain ⟨i1, i2, i3, i4, i5, i6, i7, i8⟩ := hi
   obtain ⟨l1, l2, l3⟩ := hl
   have i5' := i5 hf
   refine ⟨i1, i2, i3, i6, l1, l2, ?_, l3, ?_, ?_, ?_, le_refl _, hn⟩
@@ -359,7 +360,7 @@ theorem stepTo_post {o : Opts T} {report sched : T} {orc rest : List (Ans T)} {s
   split at e
   · rename_i hc
     injection e with e1 e2 e3; subst e1; subst e2
-    obtain ⟨i1, i2, i3, i4, i5, i6, i7⟩ := hi
+    obtain ⟨i1, i2, i3, i4, i5, i6, i7, i8⟩ := hi
     obtain ⟨l1, l2, l3⟩ := hl
     have hu := i7 hc
     post_split <;> crunch
@@ -380,15 +381,15 @@ theorem stepTo_refused {o : Opts T} (report sched : T) (orc : List (Ans T)) {s :
   cases orc <;> (unfold loop phase; simp [hf])
 
 theorem inv_init {o : Opts T} {t0 : T} (h : t0 ≤ o.finalTime) : Inv o (init t0) := by
-  refine ⟨?_, ?_, ?_, ?_, ?_, ?_, ?_⟩ <;> simp [init, h]
+  refine ⟨?_, ?_, ?_, ?_, ?_, ?_, ?_, ?_⟩ <;> simp [init, h]
 
 theorem inv_reinit {o : Opts T} {s : St T} (lowered terminate : Bool) (hi : Inv o s) (hok : reinitOK s = true) :
     Inv o (reinit lowered terminate s) := by
-  obtain ⟨i1, i2, i3, i4, i5, i6, i7⟩ := hi
+  obtain ⟨i1, i2, i3, i4, i5, i6, i7, i8⟩ := hi
   have hne : s.scs ≠ .completedWithEvent := by
     intro hs; simp [reinitOK, hs] at hok
   unfold reinit
-  cases lowered <;> cases terminate <;> refine ⟨?_, ?_, ?_, ?_, ?_, ?_, ?_⟩ <;> simp_all <;> grind
+  cases lowered <;> cases terminate <;> refine ⟨?_, ?_, ?_, ?_, ?_, ?_, ?_, ?_⟩ <;> simp_all <;> grind
 
 /-- `tRep` (ghost) is the report time of the call as soon as the call has taken an internal step -/
 theorem loop_tRep {o : Opts T} {report sched : T} :
